@@ -12,6 +12,7 @@ import (
 	"runtime"
 	"strconv"
 	"sync"
+	"sync/atomic"
 	"time"
 
 	godi "github.com/junioryono/godi/v4"
@@ -25,12 +26,12 @@ import (
 // recorded with the process that performed it.
 
 type COp struct {
-	Op string `json:"op"`
-	S  string `json:"s"`
-	K  string `json:"k"`
+	Op  string `json:"op"`
+	S   string `json:"s"`
+	K   string `json:"k"`
 	Ctx string `json:"ctx,omitempty"` // create: "nil" (the parent scope's context) or "bg" (a context of its own)
-	T  string `json:"t,omitempty"`  // explicit identity (random programs over random registration sets)
-	TK string `json:"tk,omitempty"`
+	T   string `json:"t,omitempty"`   // explicit identity (random programs over random registration sets)
+	TK  string `json:"tk,omitempty"`
 }
 
 func (o COp) ident() [2]string {
@@ -45,16 +46,17 @@ func (o COp) ident() [2]string {
 }
 
 type CScenario struct {
-	Cfg   Cfg             `json:"cfg"`
-	Init  []string        `json:"init"`
-	Pre   [][2]string     `json:"pre"`
-	Ops   map[string]COp  `json:"ops"`
-	Sched [][]string      `json:"sched"`
-	Free  bool            `json:"free"`
+	Cfg   Cfg            `json:"cfg"`
+	Init  []string       `json:"init"`
+	Pre   [][2]string    `json:"pre"`
+	Ops   map[string]COp `json:"ops"`
+	Sched [][]string     `json:"sched"`
+	Free  bool           `json:"free"`
 	// CloseWaits: the Close method of every instance waits until no resolution issued on its scope by another
 	// goroutine is still in flight (user code such as a worker pool's Close waiting for its workers); only
 	// meaningful for free-running programs
 	CloseWaits bool            `json:"closewaits,omitempty"`
+	Storm      *Storm          `json:"storm,omitempty"`
 	Raw        json.RawMessage `json:"-"`
 }
 
@@ -310,6 +312,90 @@ func runThreadOp(th string, o COp) {
 		}
 	})
 	concEmit(th, ret)
+}
+
+// Storm describes a contention scenario: Iters times, K goroutines leave a spin barrier together and all call
+// Close on the same scope (which owns two instances; with Fail one of them reports an error).  No scheduler and no
+// per-event recording inside the window: the harness only counts instance closes, non-nil returns and panics and
+// records one summary event per iteration.
+type Storm struct {
+	Iters int  `json:"iters"`
+	K     int  `json:"k"`
+	Fail  bool `json:"fail"`
+}
+
+var stormCloses sync.Map // instance id -> *int64
+
+func stormScenario(sc *CScenario, run int) {
+	runNo = run
+	R = newRun(&sc.Cfg)
+	R.quiet = true
+	R.storm = true
+	S = nil
+	var cfgRaw struct {
+		Cfg json.RawMessage `json:"cfg"`
+	}
+	json.Unmarshal(sc.Raw, &cfgRaw)
+	emit(M{"ev": "reset", "run": run, "cfg": cfgRaw.Cfg, "threads": sc.Storm.K})
+	c := godi.NewCollection()
+	for i := range R.cfg.Regs {
+		r := &R.cfg.Regs[i]
+		svc, err := serviceValue(r)
+		if err == nil {
+			err = addReg(c, r, svc)
+		}
+		if err != nil {
+			fmt.Fprintln(os.Stderr, "storm: registration failed:", err)
+			flushOut()
+			os.Exit(4)
+		}
+	}
+	p, err := c.Build()
+	if err != nil {
+		fmt.Fprintln(os.Stderr, "storm: build failed:", err)
+		flushOut()
+		os.Exit(4)
+	}
+	k := sc.Storm.K
+	for it := 0; it < sc.Storm.Iters; it++ {
+		stormCloses = sync.Map{}
+		sco, err := p.CreateScope(context.Background())
+		if err != nil {
+			break
+		}
+		sco.Get(typeByName("S1")) // the scoped A and, through it, B
+		var ready, nonnil, panics int64
+		var wg sync.WaitGroup
+		for g := 0; g < k; g++ {
+			wg.Add(1)
+			go func() {
+				defer wg.Done()
+				defer func() {
+					if r := recover(); r != nil {
+						atomic.AddInt64(&panics, 1)
+					}
+				}()
+				atomic.AddInt64(&ready, 1)
+				for atomic.LoadInt64(&ready) < int64(k) { // spin barrier: leave together
+				}
+				if err := sco.Close(); err != nil {
+					atomic.AddInt64(&nonnil, 1)
+				}
+			}()
+		}
+		wg.Wait()
+		closes := []int{}
+		stormCloses.Range(func(_, v any) bool {
+			closes = append(closes, int(atomic.LoadInt64(v.(*int64))))
+			return true
+		})
+		emit(M{"ev": "storm", "k": k, "closes": closes, "errs": int(nonnil), "panics": int(panics), "fail": sc.Storm.Fail})
+	}
+	func() {
+		defer func() { recover() }()
+		p.Close()
+	}()
+	R.storm = false
 }
 
 func concScenario(sc *CScenario, run int) (orderDrift bool) {
@@ -696,6 +782,11 @@ func concMain(args []string) {
 			os.Exit(4)
 		}
 		s.Raw = raw
+		if s.Storm != nil {
+			stormScenario(&s, run)
+			flushOut()
+			continue
+		}
 		for attempt := 0; attempt < 10; attempt++ {
 			if !concScenario(&s, run) {
 				break
